@@ -290,7 +290,7 @@ pub fn worker(idx: usize) {
                 for (mname, mode) in modes_for(*k, alen) {
                     cases += 1;
                     let _ = std::fs::write(&marker_path, format!("{:<63}\n", format!("call {} {} {}", ci, k.name(), mname)));
-                    let f = Fault { call_index: ci as u64, mode };
+                    let f = Fault::at(ci as u64, mode);
                     let out = run_case(sc, &path2, step, Some(f), None);
                     *outcomes.entry(format!("{}:{}", k.name(), out.outcome)).or_insert(0) += 1;
                     if out.kinds.len() < ci || (ci < out.kinds.len() && out.kinds[ci] != *k) {
@@ -326,7 +326,7 @@ pub fn worker(idx: usize) {
                         };
                         for cj in 0..fu_kinds {
                             cases += 1;
-                            let f2 = Fault { call_index: cj as u64, mode: FaultMode::Errno(libc::EIO) };
+                            let f2 = Fault::at(cj as u64, FaultMode::Errno(libc::EIO));
                             let out2 = run_case(sc, &path2, step, Some(f), Some((1, f2)));
                             for v in out2.violations {
                                 viols.push(json!([ci, k.name(), mname, v.class, v.detail, cj]));
@@ -456,8 +456,8 @@ pub fn replay(v: &Value) -> i32 {
                 return 2;
             }
         };
-        let f = Fault { call_index: call, mode };
-        let out = run_case_x(sc, &path, step, Some(f), second.map(|cj| (1usize, Fault { call_index: cj, mode: FaultMode::Errno(libc::EIO) })), with_reader, rollback_first);
+        let f = Fault::at(call, mode);
+        let out = run_case_x(sc, &path, step, Some(f), second.map(|cj| (1usize, Fault::at(cj, FaultMode::Errno(libc::EIO)))), with_reader, rollback_first);
         println!("outcome of the failed commit: {}", out.outcome);
         for x in &out.violations {
             println!("   !! {}: {}", x.class, x.detail);
